@@ -854,6 +854,24 @@ class C19:
             for t in ts:
                 self.glob_case(p, t, "star-overlap", "corpus")
 
+    def slot_groups(self, r, npairs):
+        """Equal-slot groups at every page alignment, for all four commands: a collection holding one or two colliding pairs
+        and a few neighbours, COUNT 1..4, engine call and handler, unchanged and with one of the pair deleted / re-added."""
+        for a, b in [r.choice(SLOT_COLLISIONS) for _ in range(npairs)]:
+            for kind in ("keys", "h", "s", "z"):
+                for count in (1, 2, 3, 4):
+                    others = gen_names(r, r.choice([0, 1, 2, 5]))
+                    c2 = r.choice(SLOT_COLLISIONS)
+                    names = [a, b] + [k for k in others if k not in (a, b)] + ([c2[0], c2[1]] if r.chance(1, 3) and c2[0] not in (a, b) else [])
+                    ctx = {"pool": ["string", "set"], "regime": r.choice(SCORE_REGIMES), "fixed": gen_score(r, "mixed", None)}
+                    steps = r.choice([[], [], [[["del", hx(a)]]], [[["del", hx(b)]], [["add", hx(b), aux_for(r, kind, ctx)]]], [[], [["del", hx(a)]]]])
+                    desc = {"kind": kind, "count": count, "pattern": r.choice([None, None, b"*", a[:1] + b"*"]), "type": None, "novalues": False,
+                            "via_cmd": r.chance(1, 3), "initial": [[hx(k), aux_for(r, kind, ctx)] for k in names], "steps": steps,
+                            "score_regime": ctx["regime"] if kind == "z" else None}
+                    desc["pattern"] = hx(desc["pattern"]) if desc["pattern"] is not None else None
+                    self.execute(desc, "slot-groups")
+                    self.rep.count("iter.slot-group-sweep." + kind)
+
     def malformed(self, r, n):
         """option parsing: wrong arity, bad numbers, unknown options (both sides must refuse alike)"""
         self.setup("reset")
@@ -981,6 +999,7 @@ class C19:
         for count in (0, 13, 999, 1001, 10 ** 6, 2 ** 32, 2 ** 64 - 1):
             for _ in range(3 * scale):
                 self.execute(gen_desc(ir, count, "both"))
+        self.slot_groups(r.fork("slot-groups"), 4 * scale)
         self.globs(r.fork("globs"), 12000 * scale)
         self.malformed(r.fork("malformed"), 2500 * scale)
         if tier == "thorough":
